@@ -58,6 +58,15 @@ elif cmd == "addset":
     for sig, keys in sorted(dump.items()):
         if only and h(sig) not in only:
             continue
+        e0 = byk.get((pid, sig))
+        if e0 is None:
+            print(f"NEW SIGNATURE, not merged (triage it, then `kf.py add {pid}`): {sig}")
+            continue
+        if e0["status"] == "fixed":
+            print(f"REGRESSION of a fixed finding, not merged: {sig}")
+            continue
+        if e0.get("input_independent"):
+            continue  # identified by its call site, matched by signature alone
         rel = f"known_sets/{pid}-{h(sig)}.txt.gz"
         path = os.path.join(V, rel)
         have = set()
